@@ -3092,8 +3092,16 @@ class Parameters:
             # assign from here on is an ordinary assignment
             self_._TRIGGER.assigning = False
         while self_._events:
-            event_dict = OrderedDict([((event.name, event.what), event)
-                                      for event in self_._events])
+            # One event per parameter (and kind): the latest one, telling of
+            # the value found when the first of them was made
+            event_dict = OrderedDict()
+            for event in self_._events:
+                first = event_dict.get((event.name, event.what))
+                if first is not None and first.old is not event.old:
+                    event = Event(what=event.what, name=event.name, obj=event.obj,
+                                  cls=event.cls, old=first.old, new=event.new,
+                                  type=event.type)
+                event_dict[(event.name, event.what)] = event
             watchers = self_._state_watchers[:]
             self_._events = []
             self_._state_watchers = []
